@@ -715,6 +715,12 @@ int dhcp_fastpath_prog(struct xdp_md *ctx) {
 	/* Determine reply type */
 	__u8 reply_type = (msg_type == DHCP_DISCOVER) ? DHCP_OFFER : DHCP_ACK;
 
+	/* The reply is built in place. Make sure the options area is large enough
+	 * BEFORE anything is rewritten: a frame handed to userspace (XDP_PASS) must
+	 * still be the request that was received.
+	 */
+	CHECK_BOUNDS_PASS(pkt.dhcp->options, pkt.data_end, MAX_DHCP_REPLY_OPTIONS_LEN);
+
 	/* === Build DHCP Reply === */
 
 	/* Check if packet was relayed (giaddr != 0) */
@@ -765,9 +771,7 @@ int dhcp_fastpath_prog(struct xdp_md *ctx) {
 	__builtin_memset(pkt.dhcp->sname, 0, sizeof(pkt.dhcp->sname));
 	__builtin_memset(pkt.dhcp->file, 0, sizeof(pkt.dhcp->file));
 
-	/* Build DHCP options */
-	CHECK_BOUNDS_PASS(pkt.dhcp->options, pkt.data_end, MAX_DHCP_REPLY_OPTIONS_LEN);
-
+	/* Build DHCP options (room for them was checked before the frame was touched) */
 	int opt_len = build_dhcp_options(pkt.dhcp->options, pkt.data_end,
 	                                  reply_type, pool, assignment,
 	                                  server_ip);
@@ -799,8 +803,11 @@ int dhcp_fastpath_prog(struct xdp_md *ctx) {
 	int delta = (int)total_len - (int)orig_len;
 	if (delta != 0) {
 		if (bpf_xdp_adjust_tail(ctx, delta) != 0) {
+			/* The frame already holds the reply and cannot be restored:
+			 * never hand it to userspace as if it were the request.
+			 */
 			update_stat(STAT_ERROR);
-			return XDP_PASS;
+			return XDP_DROP;
 		}
 		/* Note: After adjust_tail, packet pointers are invalidated.
 		 * We've already written all header fields, so we can proceed
